@@ -165,6 +165,23 @@ impl<'a> RunCtx<'a> {
 
 pub type PropFn = fn(&mut RunCtx) -> Result<(), Violation>;
 
+static PROGRESS: std::sync::OnceLock<String> = std::sync::OnceLock::new();
+
+pub fn set_progress_file(p: String) {
+    let _ = PROGRESS.set(p);
+}
+
+/// Pre-case line for the supervisor: if the process aborts or hangs, the last
+/// line names the case in flight.
+pub fn progress_case(prop: &str, run: u64, case: usize, what: &str) {
+    if let Some(p) = PROGRESS.get() {
+        use std::io::Write;
+        if let Ok(mut fh) = std::fs::OpenOptions::new().create(true).append(true).open(p) {
+            let _ = writeln!(fh, "CASE {} {} {} {}", prop, run, case, what);
+        }
+    }
+}
+
 pub struct Outcome {
     pub violation: Option<Violation>,
     pub hints: Hints,
